@@ -83,5 +83,17 @@ HonestFacts ==
   (v1 = v2 /\ g2 >= Max2(h1, g1) /\ h2 > g2 /\ h1 > g1 /\ (p2 > p1 \/ (p2 = p1 /\ h2 > h1)))
      => ~ContraOp(h1, g1, p1, v1, h2, g2, p2, v2)
 
-Inv == PairFacts /\ OrderFacts /\ HonestFacts
+\* ... and a later, higher header of the same generator that does NOT acknowledge the earlier block (claims less than its
+\* height) always contradicts it - the contradicting blocks offered to the real Executer by RecvTime.tla ("lying")
+LyingFacts ==
+  (v1 = v2 /\ g1 < h1 /\ h2 > h1 /\ p2 >= p1 /\ g2 < h1) => ContraOp(h1, g1, p1, v1, h2, g2, p2, v2)
+
+\* the genesis rule of HeaderHasPriority / Synced (ForkChoice.tla HasPriority, ver = 0): a chain (h1, p1) that a genesis
+\* header at height h2 has priority over stays below every higher genesis height too, and one that reaches above it never
+GenesisPriority(hh, h, p) == h <= hh /\ p <= hh
+GenesisFacts ==
+  /\ (GenesisPriority(h2, h1, p1) /\ h3 >= h2 => GenesisPriority(h3, h1, p1))
+  /\ (h1 > h2 => ~GenesisPriority(h2, h1, p1))
+
+Inv == PairFacts /\ OrderFacts /\ HonestFacts /\ LyingFacts /\ GenesisFacts
 =============================================================================
